@@ -278,6 +278,12 @@ func vfC17Eligibility(env *vfc.Env, id string, r *ref.Rand, a *vfC17Args) {
 			case fid > e:
 				fail("file-above-range-touched", "the pass over [%d,%d] changed %s", b, e, f)
 			case fid < b:
+				if _, existed := before[f]; !existed {
+					// a fresh destination: a file GC creates in an empty slot of a gap below the range
+					// (nothing is rewritten, truncated or removed by that)
+					res.Event("fresh_destination_below_range", 1)
+					continue
+				}
 				if earlier >= 0 && earlier != fid {
 					fail("two-earlier-files-touched", "the pass over [%d,%d] changed two files below the range: %03d.data and %s", b, e, earlier, f)
 				}
